@@ -17,6 +17,8 @@ package syncutil
 
 import "sync"
 
+import "oras.land/oras-go/v2/internal/verifhook"
+
 // mergeStatus represents the merge status of an item.
 type mergeStatus struct {
 	// main indicates if items are being merged by the current go-routine.
@@ -106,6 +108,7 @@ func (m *Merge[T]) commit() []T {
 	defer m.lock.Unlock()
 
 	m.committed = true
+	verifhook.At("syncutil.merge.committed")
 	return m.items
 }
 
